@@ -339,6 +339,30 @@ theorem writes_only_to_recorded_name {s0 : St} (h0 : Init s0) {s : St} {r : Req}
   refine ⟨hack, fun c ref hc href => ?_⟩
   exact acked_unique hi ⟨c, cur_mem hi hc, refName_of_ref href⟩ hack
 
+/-! ### server-side wiring: no XR write without an accepted, resourceVersion-checked claim write before it -/
+
+/-- ServerSideCompositeSyncer.Sync, for EVERY configuration, claim copy (however stale), name oracle and EVERY
+sequence of replies (errors of any class at any call): the forced apply of the XR — the only XR write of the
+server-side Sync, which creates the XR or rebinds it — is issued only after an `Update(claim)` of the same Sync
+that the server accepted. That Update carries the resourceVersion of the copy read (`stale_update_rejected`: a
+stale copy is answered Conflict, a copy of a claim that is gone NotFound), so a reconcile working on a stale
+copy of the claim — also one from before the claim's deletion or re-creation — never writes an XR. This is the
+optimistic-concurrency check of the whole reconcile; the seeded change C06-9 (Update skipped when the claim looks
+unchanged) removes the call and with it this theorem's premise `skeleton_ssa_sync`-independent content: it is caught
+by the monitors C06:xr-for-nonexistent-claim / C06:second-xr. (The CLIENT-side Sync has no such property on the
+pinned tree: finding C06:xr-created-from-stale-claim-without-claim-write.) -/
+theorem ssa_sync_writes_xr_only_after_accepted_claim_update (reply : Req → Resp) (fuel : Nat) (cfg : Cfg) (cm : Claim) :
+    applyAfterUpd reply fuel false (syncSSA cfg cm) = true := by
+  unfold syncSSA
+  cases cm.refName with
+  | some n => exact applyAfterUpd_ssaBind reply fuel cfg cm n
+  | none =>
+    refine applyAfterUpd_genName reply cfg.xpick _ ?_ 10 fuel 2 cfg.cands
+    intro f o
+    cases o with
+    | some n => exact applyAfterUpd_ssaBind reply f cfg cm n
+    | none => exact applyAfterUpd_statusThen reply f false cm .requeue
+
 /-! ### regenerated facts: the modelled Go functions still have the modelled call skeleton -/
 
 /-- `Reconcile`: Get claim, Get XR, unbound check, Upgrade, [Delete, RemoveFinalizer] | [AddFinalizer, Sync], … -/
@@ -903,5 +927,40 @@ a conflict and the twin claim's XR is untouched (cf. `no_hijack_guarded`) -/
 def exRacedPatchRead : Sys := stepOk (stepOk (peerStep (stepOk (stepOk ⟨exStoreP (exClaim2 false), some (reconcile (exCfg false))⟩)) "x-b"))
 
 example : exRacedPatchRead.st.trace = [] ∧ (exRacedPatchRead.st.xrs "x-b").bind (·.cref) = some exTwin := by decide
+
+/-! ### the claim is gone, the cache still serves its last bound copy (finding D41)
+
+`ssa_sync_writes_xr_only_after_accepted_claim_update` has no client-side counterpart on the pinned tree:
+ClientSideCompositeSyncer.Sync updates the claim only if the proposed reference differs from the stored one, and
+AddFinalizer writes nothing if the copy has the finalizer. So a STALE copy of a claim that is bound reaches Apply's
+Create without any resourceVersion-checked claim write. Monitor C06:xr-created-from-stale-claim-without-claim-write,
+corpus/C06/stale_gone.jsonl. -/
+
+/-- `applyAfterUpd` is not vacuous: false for a program that applies the XR first (what the server-side Sync would be
+without its Update) -/
+example : applyAfterUpd (okReply exClaim ⟨3, none, false, none, false, false, false, 0, []⟩ true) 5 false
+    (.call (.applyXR "x-b" exMe) fun _ => .ret .ok) = false := rfl
+
+/-- the claim `exClaim5` (bound to `x-n`, which was deleted with it) is GONE; the cache serves its last copy
+(`pick := some 0`); four calls of the reconcile -/
+def exGone (ssa : Bool) : Sys :=
+  stepOk (stepOk (stepOk (stepOk
+    ⟨{ exStoreP exClaim5 with claim := none }, some (reconcile { exCfg ssa with pick := some 0 })⟩)))
+
+theorem exGone_reach (ssa : Bool) : Reach (exStoreP exClaim5) (exGone ssa) :=
+  stepOk_reach (stepOk_reach (stepOk_reach (stepOk_reach
+    (Reach.step _ _ (Reach.step _ _ Reach.init (Step.env _ _ none (Env.claimGone _))) (Step.start _ _ _)))))
+
+/-- CLIENT-side syncer, unchanged code: get claim (stale copy), get `x-n` (NotFound), Apply's Get (NotFound), Create —
+an XR bound to a claim that does not exist, and no claim write was even attempted (no `ack`): the clause "the
+reference is durably recorded before the XR is created" holds only through the OLD incarnation's record. -/
+theorem stale_copy_of_deleted_claim_creates_xr_fails_on_unfixed_witness :
+    Reach (exStoreP exClaim5) (exGone false) ∧ (exGone false).st.claim = none ∧
+      (exGone false).st.trace = [.create "x-n"] ∧ isBound (exGone false).st "x-n" = true := by
+  refine ⟨exGone_reach false, by decide, by decide, by decide⟩
+
+/-- SERVER-side syncer, same schedule: the unconditional Update(claim) is answered NotFound and nothing is written -/
+example : Reach (exStoreP exClaim5) (exGone true) ∧ (exGone true).st.trace = [] ∧ ((exGone true).st.xrs "x-n").isNone = true :=
+  ⟨exGone_reach true, by decide, by decide⟩
 
 end Xp.C06
